@@ -257,6 +257,14 @@ func c13PointsBody(t *testing.T, nBatches int, twoPoint bool, storedFlags ...boo
 	// fourth optional flag: conditions that filter on key "0", points with keys "0", "1", "2" (never "")
 	keyZero := len(storedFlags) > 2 && storedFlags[2]
 	conds := c13PointConds()
+	if flags {
+		// comparisons that cannot be evaluated (operator unknown or not defined for the value kind): such a
+		// condition can never hold, whatever it was before
+		for _, m := range []struct{ vt, op string }{{data.PointValueNumber, data.PointValueContains}, {data.PointValueText, data.PointValueGreaterThan}, {data.PointValueNumber, "noSuchOperator"}} {
+			conds = append(conds, c13Cond{client.Condition{ConditionType: data.PointValuePointValue, ValueType: m.vt, Operator: m.op, Value: 5, ValueText: "ab"},
+				fmt.Sprintf("%s %s (cannot be evaluated)", m.vt, m.op)})
+		}
+	}
 	if keyZero {
 		var cz []c13Cond
 		for _, c := range conds {
@@ -619,7 +627,7 @@ func TestC13(t *testing.T) {
 			Rule: "each of the 72 single point conditions x all sequences of 2 steps over the 64-point alphabet plus {the condition's comparison value set to 4.5, to 5.5 while the rule runs}: after an update the rule evaluates a trigger point of its own and later points are compared with the new value"},
 			c13PointsBody(t, 2, false, false, true))
 		r.Explore(mc.Config{Name: "point-conditions-stored-flags-b1", Serial: true, SplitDepth: 2,
-			Rule: "same rule configurations plus the rule without conditions, started with every combination of stored `active` flags of the rule and of each condition (a rule client restarted after its configuration changed: the stored rule flag may disagree with the conditions), with and without a misconfigured action in front of each action list (set-value without point type, unknown action kind: the well-formed actions behind it must still run) x one single-point batch: after the batch the rule is active exactly when all conditions are, and the action list ran iff the rule's state changed"},
+			Rule: "same rule configurations plus the rule without conditions, started with every combination of stored `active` flags of the rule and of each condition (a rule client restarted after its configuration changed: the stored rule flag may disagree with the conditions), three more conditions whose comparison cannot be evaluated (operator unknown or not defined for the value kind: never active), with and without a misconfigured action in front of each action list (set-value without point type, unknown action kind: the well-formed actions behind it must still run) x one single-point batch: after the batch the rule is active exactly when all conditions are, and the action list ran iff the rule's state changed"},
 			c13PointsBody(t, 1, false, true))
 		r.Explore(mc.Config{Name: fmt.Sprintf("schedule-conditions-s%d", steps), Serial: true, SplitDepth: 3,
 			Rule: fmt.Sprintf("6 schedule windows around the (virtual) clock start 2000-01-01T00:00:00Z incl. wrap over midnight and start=end, each with weekdays {every day, Saturday (the start day), Sunday, Friday}, alone / AND a number condition / AND a second schedule condition with its own weekdays {every day, Saturday, Sunday}, process time zone UTC or UTC-5 x all sequences of %d operations over {advance 9 s, 10 s, 25 s, 60 s, 61 s, point 4, point 6}; after every operation the publications are compared with the interval model evaluated at each 10 s tick", steps)},
